@@ -139,6 +139,13 @@ CorrespOK(A, B, new) ==
       /\ Has(new, "buffer", o, "buffer", "added") => (A.obs[o].data = 0 /\ B.obs[o].status = "RUNNING")
       /\ (A.obs[o].data = 0 /\ B.obs[o].data > 0 /\ B.obs[o].status = "RUNNING") => Has(new, "buffer", o, "buffer", "added")
 
+(* columns no listed property mentions but the specification models (L2) *)
+RowExtraOK(A, row) ==
+    /\ row.observations_delayed * K =
+          SumFunction([o \in {o \in ObsNames : A.obs[o].status = "WAITING" /\ A.now > OCfg(o).est * K} |->
+                         A.now - OCfg(o).est * K])
+    /\ row.delay_offset * K = A.sch.doff
+    /\ row.schedule_status = A.sch.status
 RowOK(A, row) == \A c \in DOMAIN TrueRow(A) : row[c] = TrueRow(A)[c]
 
 Report(ok, tag, i, what) == IF ok THEN TRUE ELSE PrintT(<<tag, tid, i, what>>)
@@ -210,6 +217,8 @@ TNext == /\ l < Len(Steps(tid))
                   ELSE PrintT(<<"DRIFT", tid, l + 1, rec.lab.kind, Diff(A, B, rec)>>)
                /\ IF \A i \in CandT(A, rec) : ProposalOK(A, i, rec) THEN TRUE
                   ELSE PrintT(<<"PROPOSAL", tid, l + 1, rec.lab.o>>)
+               /\ IF Len(rec.rows) = 1 /\ ~RowExtraOK(IF Boundary(A, B) \/ l = 1 THEN [A EXCEPT !.now = B.now] ELSE [bos EXCEPT !.now = B.now], rec.rows[1])
+                  THEN PrintT(<<"DRIFT", tid, l + 1, "ROW-extra-columns">>) ELSE TRUE
                /\ IF Exact(A, rec) THEN TRUE ELSE PrintT(<<"ORDER", tid, l + 1>>)
                /\ IF l + 1 = Len(Steps(tid)) THEN PrintT(<<"DONE", tid, l + 1>>) ELSE TRUE
          /\ UNCHANGED <<cfg, tid>>
